@@ -2,6 +2,7 @@ import ChythonModel.Proofs.C11Lemmas
 import ChythonModel.Proofs.C11Frame
 import ChythonModel.Proofs.C11Block
 import ChythonModel.Proofs.C11Meta
+import ChythonModel.Proofs.C11Record
 import ChythonModel.Gen.PeriodicTable
 /-!
 # C11 — MDL write→read preserves the record: property theorems
@@ -264,5 +265,42 @@ theorem rdf_meta_roundtrip (kvs : List (Str × Str × List Str))
 example : WFRdfLine (sL "AT5 MUD") ∧ WFRdfLine (sL "TAMU") ∧ WFRdfLine (sL "DATA $DATUM") :=
   ⟨⟨by decide, by decide, by decide, by decide, by decide⟩, ⟨by decide, by decide, by decide, by decide, by decide⟩,
    ⟨by decide, by decide, by decide, by decide, by decide⟩⟩
+
+/-! ## 6. atom numbers and the whole SDF record -/
+
+/-- `postprocess_parsed_molecule` keeps distinct non-zero mapping numbers exactly: atom order **and numbers** survive -/
+theorem mapping_preserved (ms : List Int) (hne : ms ≠ []) (h0 : ∀ m ∈ ms, m ≠ 0) (hnd : ms.Nodup) :
+    postprocessMapping ms = .ok ms := ChythonModel.Proofs.C11.mapping_preserved ms hne h0 hnd
+
+/-- duplicated or missing numbers are *not* kept (they are renumbered above the maximum) — the hypothesis is needed -/
+theorem mapping_duplicates_renumbered : postprocessMapping [5, 5, 0] = .ok [5, 6, 7] := by decide
+
+/-- **sdf_record_roundtrip** (V2000): take any representable molecule (`WFMol`), distinct non-zero atom numbers, a title
+    not starting with `M  END`, and representable metadata. The block consisting of the lines `SDFWrite.write` emits
+    (MOL lines, then the `>  <key>` blocks) is cut by the reader at the right `M  END`, dispatched to the V2000 parser,
+    and `read_structure` (modelled part: `_read_mol`, `parse_mol_v2000`, `postprocess_parsed_molecule`,
+    `read_metadata`) returns the expected molecule, the same atom numbers in the same order, and the same ordered
+    metadata. Together with `frame_roundtrip` (which feeds each block of a multi-record file to this function) this is
+    the write→read statement for SDF files at the text layer. -/
+theorem sdf_record_roundtrip (g : WMol) (h : WFMol g) (kvs : List (Str × List Str))
+    (hmeta : ∀ kv ∈ kvs, WFKey kv.1 ∧ (∀ v ∈ kv.2, WFValueLine v) ∧ kv.2 ≠ []) (hnd : (kvs.map (·.1)).Nodup)
+    (hname : isMEnd (g.name ++ sL "\n") = false)
+    (hnums : (g.atoms.map fun a => (a.num : Int)).Nodup) (hnum0 : ∀ a ∈ g.atoms, a.num ≠ 0)
+    (ls : List Str) (hw : writeMol2000 true g = .ok ls) :
+    readStructure ⟨ls ++ (kvs.map fun kv => chunkLines kv.1 kv.2).flatten,
+                   firstMEnd (ls ++ (kvs.map fun kv => chunkLines kv.1 kv.2).flatten)⟩ =
+      .ok { mol := .v2 (expectedMol true g), mapping := g.atoms.map fun a => (a.num : Int),
+            md := kvs.map fun kv => (kv.1, joinWith ['\n'] kv.2) } :=
+  ChythonModel.Proofs.C11.sdf_record_roundtrip g h kvs hmeta hnd hname hnums hnum0 ls hw
+
+/-- the extra hypotheses hold for the example molecule (numbers 7, 3, 999; title " my title ") -/
+example : isMEnd (exampleMol.name ++ sL "\n") = false ∧ (exampleMol.atoms.map fun a => (a.num : Int)).Nodup := by
+  decide +kernel
+
+/-- Full statement without the title hypothesis. False of the code: a title that starts with `M  END` is taken for the
+    end of the MOL block (known finding `C11/title/SDF/title-starts-with-M-END`). -/
+def TitleFull : Prop :=
+  ∀ (name : Str), '\n' ∉ name →
+    firstMEnd ([name ++ sL "\n", sL "\n", sL "\n", sL "  1  0\n", sL "atom\n", sL "M  END\n"]) = some 6
 
 end ChythonModel.Props.C11
